@@ -193,6 +193,24 @@ pub fn run(tier: &str, seed: u64, out: &Path) -> i32 {
         }
         push(&mut jobs, &mut names, "blank", &format!("blank{}", k), src, cfg);
     }
+    // L. names that are not ASCII in the lists the formatter sorts (imports, names in an import list, `mod` and
+    //    `extern crate` declarations): the orderings walk the names by character and by byte.  Own PRNG stream.
+    {
+        let mut r2 = Rng::new(seed ^ 0x1de47);
+        let import_opts: Vec<(String, String)> = singles.iter().filter(|(k, _)| k.starts_with("imports_") || k == "group_imports" || k.starts_with("reorder_")).cloned().collect();
+        for k in 0..(if thorough { 4000 } else { 600 }) {
+            let src = names_program(&mut r2);
+            let mut cfg: Vec<(String, String)> = vec![("style_edition".into(), r2.pick(&["2015", "2021", "2024", "2024"]).to_string())];
+            if r2.chance(1, 2) {
+                let (a, b) = r2.pick(&import_opts).clone();
+                cfg = merge_cfg(&cfg, &[(a, b)]);
+            }
+            if r2.chance(1, 4) {
+                cfg = merge_cfg(&cfg, &[("max_width".into(), r2.pick(&[20usize, 40, 60]).to_string())]);
+            }
+            push(&mut jobs, &mut names, "names", &format!("names{}", k), src, cfg);
+        }
+    }
     // K. option values at their extremes and contradictory pairs (every one is an accepted configuration)
     {
         const EXTREME: &[(&str, &[&str])] = &[
@@ -401,6 +419,48 @@ pub fn run(tier: &str, seed: u64, out: &Path) -> i32 {
     o.sample(json!({"family": names.get(0), "config": jobs.get(0).map(|j| cfg_text(&j.cfg)), "src_head": jobs.get(0).map(|j| j.src.chars().take(200).collect::<String>())}));
     o.sample(json!({"family": names.last(), "config": jobs.last().map(|j| cfg_text(&j.cfg)), "src_head": jobs.last().map(|j| j.src.chars().take(200).collect::<String>())}));
     o.finish(out, jobs_n())
+}
+
+/// an identifier put together from ASCII and non-ASCII letters, underscores and digit runs
+fn mixed_ident(rng: &mut Rng) -> String {
+    const HEADS: &[&str] = &["a", "B", "z", "é", "ß", "Ü", "ö", "日", "ǅ", "gr", "Max", "X"];
+    const TAILS: &[&str] = &["a", "B", "é", "ß", "Ü", "öße", "日本", "_", "_", "1", "02", "10", "9", "x", "__", "٣"];
+    let mut s = rng.pick(HEADS).to_string();
+    for _ in 0..rng.range(0, 5) {
+        s.push_str(*rng.pick(TAILS));
+    }
+    s
+}
+
+/// groups of imports / `mod` / `extern crate` declarations over `mixed_ident`
+fn names_program(rng: &mut Rng) -> String {
+    let mut s = String::new();
+    for _ in 0..rng.range(1, 4) {
+        match rng.below(4) {
+            0 => {
+                for _ in 0..rng.range(2, 5) {
+                    s.push_str(&format!("{}mod {};\n", if rng.chance(1, 5) { "pub " } else { "" }, mixed_ident(rng)));
+                }
+            }
+            1 => {
+                for _ in 0..rng.range(2, 4) {
+                    s.push_str(&format!("extern crate {};\n", mixed_ident(rng)));
+                }
+            }
+            2 => {
+                let k = rng.range(2, 6);
+                let items: Vec<String> = (0..k).map(|_| if rng.chance(1, 6) { format!("{} as {}", mixed_ident(rng), mixed_ident(rng)) } else { mixed_ident(rng) }).collect();
+                s.push_str(&format!("use {}::{{{}}};\n", mixed_ident(rng), items.join(", ")));
+            }
+            _ => {
+                for _ in 0..rng.range(2, 5) {
+                    s.push_str(&format!("use {}::{};\n", mixed_ident(rng), mixed_ident(rng)));
+                }
+            }
+        }
+        s.push_str(*rng.pick(&["\n", "\nfn f() {}\n\n", "\n// group\n"]));
+    }
+    s
 }
 
 fn jobs_n() -> usize {
